@@ -131,6 +131,22 @@ fn emit_choice(
         branch_nodes.push(Node::Newline);
         body_already_emitted = true;
     }
+    if !body_already_emitted
+        && choice.selected_text.is_none()
+        && !choice.has_start_content
+        && !choice.has_choice_only_content
+    {
+        // fallback choice `* ->`: like every choice its content ends the line it is on,
+        // after the divert when that is written on the choice line itself
+        if choice.body_divert_is_inline {
+            branch_nodes.extend(choice.body.clone());
+            branch_nodes.push(Node::Newline);
+        } else {
+            branch_nodes.push(Node::Newline);
+            branch_nodes.extend(choice.body.clone());
+        }
+        body_already_emitted = true;
+    }
     if !body_already_emitted {
         branch_nodes.extend(choice.body.clone());
     }
